@@ -139,7 +139,8 @@ ApplyKV(st, rec, sec) ==
 
 \* ---- events -------------------------------------------------------------------
 Ev0 == [bg |-> "", breaks |-> <<>>]
-CleanName(f) == IF f = "p\\q.jpg" THEN "p/q.jpg" ELSE f      \* quotes trimmed, `\` -> `/`
+\* quotes trimmed, `\` -> `/`; a doubled backslash is one separator (the harness spells p\q.jpg both ways)
+CleanName(f) == IF f = "p\\q.jpg" THEN "p/q.jpg" ELSE f
 IsVideoExt(f) == f \in {"v.mp4", "V.AVI", "v.flv"}
 \* t: "bg" | "video" | "sprite" | "break" | "other" (colour/sample/animation) | "bad" (unknown type)
 ApplyEv(st, e) ==
